@@ -76,6 +76,12 @@ func c07Gen(rng *verifsim.RNG, idx int, tier string) *Plan {
 		p.Class = "faults"
 		p.Faults = append(p.Faults, Fault{Seam: "write", Key: []string{"uc", "mc", ""}[rng.Intn(3)], N: rng.Range(2, 12),
 			Err: []string{"ENOBUFS", "ENETDOWN", "EINVAL"}[rng.Intn(3)]})
+	case 3:
+		// several transmissions in flight at once, all slow and all failing:
+		// only the first error is ever heard by the scheduler
+		p.Class = "faults-overlapping"
+		p.Faults = append(p.Faults, Fault{Seam: "write", Key: []string{"uc", ""}[rng.Intn(2)], N: rng.Range(2, 8), Count: rng.Range(2, 4),
+			Err: []string{"ENOBUFS", "ENETDOWN", "EINVAL"}[rng.Intn(3)], Lat: int64(rng.Dur(50*time.Millisecond, 900*time.Millisecond))})
 	case 2:
 		p.Class = "flap"
 		p.Actions = append(p.Actions, Action{At: int64(rng.Dur(time.Second, horizon)) + jitter(rng), Kind: "link", If: "eth0", Oper: "down"})
